@@ -44,11 +44,12 @@ type Mode struct {
 	Depth2AllSched bool // depth 2 on every explored schedule (else only on the default schedule's trace)
 	NoMMapToo      bool // recover with both loaders on every image (else: both loaders on the default
 	// schedule's trace; elsewhere the non-mmap loader, plus the mmap loader whenever an error path ran)
-	AllSegPrefixes bool
-	Conformance    bool // replay every distinct trace on the real directory
-	WriterOpen     bool // C03: additionally open a WRITER on every image (crashfs copy) and compare
-	FilesOnly      bool // C11 under faults: judge only the retention / handle / lock invariants of the trace
-	CumulativeAck  bool // C14: an acknowledgement covers every batch applied before it (single client)
+	AllSegPrefixes      bool
+	Conformance         bool // replay every distinct trace on the real directory
+	WriterOpen          bool // C03: additionally open a WRITER on every image (crashfs copy) and compare
+	FilesOnly           bool // C11 under faults: judge only the retention / handle / lock invariants of the trace
+	CumulativeAck       bool // C14: an acknowledgement covers every batch applied before it (single client)
+	WriterOpenOnDefault bool // on the default schedule's trace, additionally open a WRITER on every image (it walks the snapshots with code of its own)
 }
 
 type batchRec struct {
@@ -247,6 +248,9 @@ func Run(name string, sc Scenario, mode Mode, opts verifmc.Options, faults func(
 	}
 	if isDefault {
 		m.NoMMapToo = true // the default schedule's trace: every image with both loaders
+		if m.WriterOpenOnDefault {
+			m.WriterOpen = true // and a writer opened on every image
+		}
 	}
 	fail, key := Judge(name, sc, m, dir.Trace, recs, res)
 	res.Failure, res.Key = fail, key
@@ -705,6 +709,24 @@ func RetentionInvariant(trace []crashfs.Event, n int) string {
 			}
 		case "remove":
 			if e.Err == "" {
+				if _, had := files[e.Name]; had && strings.HasSuffix(e.Name, ".seg") {
+					// no segment file goes while a complete snapshot that is still on disk refers to it
+					// (a superseded snapshot whose own removal failed keeps its segments until it is gone)
+					for name, b := range files {
+						if !strings.HasSuffix(name, ".snp") || len(b) < 4 {
+							continue
+						}
+						segs, _, err := index.VerifDecodeSnapshot(b[:len(b)-4])
+						if err != nil {
+							continue
+						}
+						for _, sg := range segs {
+							if crashfs.FileName(index.ItemKindSegment, sg.ID) == e.Name {
+								return fmt.Sprintf("storage event %d removed segment file %s while snapshot file %s, on disk and loadable until then, refers to it", i, e.Name, name)
+							}
+						}
+					}
+				}
 				delete(files, e.Name)
 			}
 		default:
